@@ -44,7 +44,7 @@ def pickNonEmpty (a b : Region) : Region := if a.len > 0 then a else b
 
 inductive Algo where
   | mixedRadix | mixedRadixSmall | goodThomas | goodThomasSmall | raders | bluesteins (n : Nat)
-  | radixLike     -- RadixN, Radix4, Radix3 (boilerplate_fft_oop!)
+  | radixN | radix4 | radix3     -- boilerplate_fft_oop!: identical call structure, separately generated scratch formulas
   deriving Repr, DecidableEq, Inhabited
 
 /-- the calls one *chunk* makes.  `len` = the algorithm's length; `s0`, `s1` the specs of its inner transforms
@@ -102,11 +102,17 @@ def calls (a : Algo) (e : EntryKind) (len : Nat) (s0 s1 : Spec) (adv : Nat) : Li
     let x := reg .scratch 0 M
     let is := reg .scratch M (adv - M)
     [⟨0, .inplace, x, none, is⟩, ⟨0, .inplace, x, none, is⟩]
-  | .radixLike, .immut => [⟨0, .inplace, output, none, scratch⟩]
-  | .radixLike, .oop => [⟨0, .inplace, output, none, pickNonEmpty scratch input⟩]
-  | .radixLike, .inplace =>
+  | .radixN, .immut => [⟨0, .inplace, output, none, scratch⟩]
+  | .radixN, .oop => [⟨0, .inplace, output, none, pickNonEmpty scratch input⟩]
+  | .radixN, .inplace =>
     -- boilerplate_fft_oop!: split the scratch at len, run the out-of-place body into it, copy back
     [⟨0, .inplace, selfS, none, pickNonEmpty innerS buffer⟩]
+  | .radix4, .immut => [⟨0, .inplace, output, none, scratch⟩]
+  | .radix4, .oop => [⟨0, .inplace, output, none, pickNonEmpty scratch input⟩]
+  | .radix4, .inplace => [⟨0, .inplace, selfS, none, pickNonEmpty innerS buffer⟩]
+  | .radix3, .immut => [⟨0, .inplace, output, none, scratch⟩]
+  | .radix3, .oop => [⟨0, .inplace, output, none, pickNonEmpty scratch input⟩]
+  | .radix3, .inplace => [⟨0, .inplace, selfS, none, pickNonEmpty innerS buffer⟩]
 
 /-- the advertised scratch length of (algorithm, entry) from the inner specs — the generated formulas -/
 def advertised (a : Algo) (e : EntryKind) (len : Nat) (s0 s1 : Spec) : Nat :=
@@ -127,9 +133,15 @@ def advertised (a : Algo) (e : EntryKind) (len : Nat) (s0 s1 : Spec) : Nat :=
   | .raders, .oop => Gen.raders_oop s0
   | .raders, .immut => Gen.raders_immut s0
   | .bluesteins _, _ => Gen.bluesteins_scratch s0
-  | .radixLike, .inplace => Gen.radixN_inplace len s0
-  | .radixLike, .oop => Gen.radixN_oop len s0
-  | .radixLike, .immut => Gen.radixN_immut len s0
+  | .radixN, .inplace => Gen.radixN_inplace len s0
+  | .radixN, .oop => Gen.radixN_oop len s0
+  | .radixN, .immut => Gen.radixN_immut len s0
+  | .radix4, .inplace => Gen.radix4_inplace len s0
+  | .radix4, .oop => Gen.radix4_oop len s0
+  | .radix4, .immut => Gen.radix4_immut len s0
+  | .radix3, .inplace => Gen.radix3_inplace len s0
+  | .radix3, .oop => Gen.radix3_oop len s0
+  | .radix3, .immut => Gen.radix3_immut len s0
 
 /-- what a call needs: scratch for its entry point -/
 def Call.need (c : Call) (s0 s1 : Spec) : Nat :=
